@@ -73,12 +73,19 @@ def facts_path(config="default", repo=None, cache=None, verbose=False):
     os.makedirs(cache, exist_ok=True)
     if config not in CONFIGS:
         raise InfraError("unknown config " + config)
-    lock = open(os.path.join(cache, "extract-%s.lock" % config), "w")
+    th = tree_hash(repo)
+    out = os.path.join(cache, "facts-%s-%s.json" % (config, th))
+    if os.path.exists(out) and os.path.getsize(out) > 1000 and os.path.exists(DRIVER) and time.time() - os.path.getmtime(out) > 2:
+        # already extracted for exactly this tree: no need to queue behind other trees' extractions
+        return out, {"reused": True, "tree_hash": th, "extract_s": 0.0}
+    # replay tools that run many trees in parallel may spread the builds over several target directories (ZMQ_EXTRACT_SLOTS=n)
+    slots = max(1, int(os.environ.get("ZMQ_EXTRACT_SLOTS", "1")))
+    slot = os.getpid() % slots
+    sfx = "" if slot == 0 else "-s%d" % slot
+    lock = open(os.path.join(cache, "extract-%s%s.lock" % (config, sfx)), "w")
     fcntl.flock(lock, fcntl.LOCK_EX)
     try:
         ensure_driver()
-        th = tree_hash(repo)
-        out = os.path.join(cache, "facts-%s-%s.json" % (config, th))
         if os.path.exists(out) and os.path.getsize(out) > 1000:
             return out, {"reused": True, "tree_hash": th, "extract_s": 0.0}
         # drop older fact files of this config (bounded disk use)
@@ -89,7 +96,7 @@ def facts_path(config="default", repo=None, cache=None, verbose=False):
                 os.remove(os.path.join(cache, f))
             except OSError:
                 pass
-        target = os.path.join(cache, "target-%s" % config)
+        target = os.path.join(cache, "target-%s%s" % (config, sfx))
         fp = os.path.join(target, "debug", ".fingerprint")
         if os.path.isdir(fp):
             for d in os.listdir(fp):
